@@ -41,7 +41,7 @@ CONFIGS = {
               ("strings", STRK, 3, "StringsQuick"), ("sinks", SINKK, 3, "StrSinks2")],
     "thorough": [("shapes-all", "AllKinds", 5, "Palette2"), ("shapes-text", TEXTK, 7, "Palette1"),
                  ("shapes-figure", FIGK, 5, "Palette2"), ("strings", STRK, 3, "Str3"), ("shapes-all6", "AllKinds", 6, "Palette1"),
-                 ("sinks", STRK, 3, "StrSinks3"), ("format", STRK, 3, "StrFormat3")],
+                 ("sinks", SINKK, 3, "StrSinks3"), ("format", STRK, 3, "StrFormat3")],
 }
 CODECS = [(C.K_UTF8, "utf-8", "u8"), (C.K_UTF16, "utf-16", "u16"), (C.K_LATIN1, "latin-1", "l1")]
 # further members of the codec classes of ConvOps.tla: ASCII-escaping / shifting (modelled: u7, hz, jp), and class-mates of the
@@ -800,8 +800,8 @@ MARKUP_CONFIGS = {
     "quick": [("markup", "HocrKinds", 4, "MPaletteQuick", "BothConvs", "AllModes"),
               # several glyphs in one line: the word collector of HOCRConverter, the span bookkeeping of HTMLConverter
               ("markup-lines", "LineKinds", 6, "MLinesQuick", "BothConvs", "NormalMode")],
-    "thorough": [("markup", "HtmlKinds", 5, "MPalette", "BothConvs", "AllModes"), ("markup-strings", "FlatKinds", 3, "MStr2", "BothConvs", "NormalMode"),
-                 ("markup-lines", "LineKinds", 7, "MLines", "BothConvs", "NormalMode")],
+    "thorough": [("markup", "HtmlKinds", 5, "MPalette5", "BothConvs", "AllModes"), ("markup-strings", "FlatKinds", 3, "MStr2", "BothConvs", "NormalMode"),
+                 ("markup-lines", "LineKinds", 6, "MLines", "BothConvs", "NormalMode")],
 }
 
 
@@ -880,7 +880,7 @@ def direction_markup(ck, seen):
         mod = "RunM_" + label.replace("-", "_")
         wrapper = os.path.join(ck.tmp, mod + ".tla")
         with open(wrapper, "w") as f:
-            f.write('---- MODULE %s ----\nEXTENDS MC_Markup\nTheDevs == {{}, %s}\nMPaletteQuick == {<<cLT, cAMP>>, <<cQUOT, cPLUS, cAPOS>>, <<cPLAIN, cSP, cPLAIN>>}\nMLinesQuick == {<<cPLAIN, cSP, cLT>>, <<cSP>>}\n====\n'
+            f.write('---- MODULE %s ----\nEXTENDS MC_Markup\nTheDevs == {{}, %s}\nMPaletteQuick == {<<cLT, cAMP>>, <<cQUOT, cPLUS, cAPOS>>, <<cPLAIN, cSP, cPLAIN>>}\nMLinesQuick == {<<cPLAIN, cSP, cLT>>, <<cSP>>}\nMPalette5 == {<<cLT, cAMP>>, <<cQUOT, cPLUS, cAPOS>>, <<cPLAIN, cSP, cPLAIN>>, <<cPCT, cFMT>>, <<cLBRACE, cFMT, cRBRACE>>}\n====\n'
                     % (mod, tla_set(devs_all)))
         cfg = write_cfg(os.path.join(ck.tmp, mod + ".cfg"),
                         constants={"MaxNodes": maxn, "Strings": "<- " + strings, "Kinds": "<- " + kinds, "DevChoices": "<- TheDevs",
